@@ -175,7 +175,9 @@ def discharge(ob: Obligation, ex, rlimit=RLIMIT):
             s2.set("rlimit", rlimit)
             s2.set("timeout", 4 * TIMEOUT_MS)
             s2.set("random_seed", 7)
-            s2.from_string(smt)
+            for f in facts:
+                s2.add(f)
+            s2.add(z3.Not(goal))
             r2 = s2.check()
             if r2 == z3.unsat:
                 ob.status, ob.backend = "discharged", "z3-%s(retry)" % z3.get_version_string()
